@@ -22,6 +22,8 @@ def run(ctx):
         ctx, "C03_", slices(ctx),
         n_random=150 if quick else 1500, rand_len=30,
         walk_limit=120 if quick else None)
+    if not quick:
+        curve_check.repo_test_traces(ctx, "C03_")
     ctx.assumptions += [
         "fresh-object oracle: the reference for 'current' results is the "
         "same library run once on a new object with deep-copied arguments "
